@@ -163,8 +163,10 @@ theorem compile_correct_level (lv : Nat) (p : Program) (res : Result) (hp : CgPr
         rw [hr] at hf
         simp only [Except.ok.injEq] at hf
         subst hf
-        obtain ⟨its, _, _, _, _, hits, _⟩ := (compileRoutines_cg { rs := [], N := [], hlab := List.nodup_nil, defs := allDefs p } 1 lv
-          p.routines 0 _ _ _ _ hseq rfl rfl hall hml rfl rfl (wrapAssert_ok hr)).2.2 j r hj
+        let cxD : Cx := { rs := [], N := [], hlab := List.nodup_nil, defs := allDefs p }
+        obtain ⟨its, _, _, _, _, hits, _⟩ := (compileRoutines_cg [] p.routines 0 _ _ _ _ hseq rfl rfl (fun r' hr' lb s ops s2 h' =>
+          (cStmts_c cxD 1 lv (macOK_nil cxD 1 rfl) r'.body lb (hall r' hr') (hml r' hr') {} (envOK_empty cxD rfl) s ops s2 h').stk)
+          rfl rfl (wrapAssert_ok hr)).2.2 j r hj
         simp only [Nat.zero_add] at hits
         rw [List.getElem?_eq_none h'] at hits
         cases hits
